@@ -46,7 +46,7 @@ def eval (F : Facts) : List String → Option String
       | _ => none
     let (p, mf) ← (match path with
       | "broadcast" => some (Path.broadcastTo, F.broadcastTo)
-      | "udp" => some (Path.udp, F.sendUDP)
+      | "udp" | "any" => some (Path.udp, F.sendUDP)      -- "any" is not "tcp": the connected-UDP path
       | "tcp" => some (Path.tcp, F.sendTCP)
       | _ => none)
     let sp ← (match kv special with
